@@ -31,6 +31,7 @@ func checkC10(c *Ctx) {
 	c.checkPayloadFreshPerMessage()
 	c.checkOnlineCountedWithAttach()
 	c.checkIntersectionPairsAreGenerations("C10.7-intersections-pair-generations")
+	c.checkCompoundCommandsComparedByHead()
 	// of the module-wide intersection census only the predicates presence depends on (P, R, and J for
 	// "upd")
 	c.R.Scoped(func(rule, construct string) bool {
